@@ -276,7 +276,9 @@ def cli_build(ctx, ls=False):
     env = dict(ENV)
     env["RUSTFLAGS"] = "--cfg veryl_verif"
     t = time.time()
+    # every CLI start hashes its own 200 MB executable (cache key): build only blake3 optimised
     rc, out = sh(["cargo", "build", "--offline", "--quiet", "--manifest-path", f"{REPO}/Cargo.toml",
+                  "--config", "profile.dev.package.blake3.opt-level=3",
                   "--target-dir", CLI_TARGET] + pk, env=env)
     ctx.cov["cli_build_s"] = round(time.time() - t, 1)
     if rc != 0:
